@@ -9,9 +9,9 @@
           runBTR r σ  agrees with  X86.step i st   on every register, flag, memory byte and the next address
 
   WHAT IS PROVED HERE (all of it universal over operand values / register contents / states; nothing is bounded):
-    (A) mirror + theorem, INSTRUCTION LEVEL (`lift_correct_rr/ri/un/rm/mr/mi/lea/setcc/cmov/jcc`): 64-bit mode,
+    (A) mirror + theorem, INSTRUCTION LEVEL (`lift_correct_rr/ri/un/rm/mr/mi/lea/setcc/cmov/jcc/test/xchg/extend`): 64-bit mode,
         {mov add sub cmp and or xor} x (reg,reg | reg,imm | reg,[mem] | [mem],reg | [mem],imm), lea, and
-        {inc dec neg not} x register, setcc r8, cmovcc r,r and jcc rel (14 codes each); memory operands = base + index*scale + disp with 64-bit registers or rip, mapped
+        {inc dec neg not} x register, setcc r8, cmovcc r,r and jcc rel (14 codes each), test r,r|r,imm, xchg r,r, movzx/movsx/movsxd r,r; memory operands = base + index*scale + disp with 64-bit registers or rip, mapped
         and non-wrapping accesses; registers at every operand size and shape — 64-bit, 32-bit (zero-extending), 16-bit, low byte, and the high-byte
         registers ah/ch/dh/bh — every pair of registers (aliasing included), every state: `runBTR` of the mirrored
         `BlockTranslationResult` agrees with `X86.step` on all sixteen general registers, CF ZF SF OF, memory and the
@@ -41,6 +41,7 @@ import FalconProofs.C01.Unary
 import FalconProofs.C01.MemForms
 import FalconProofs.C01.Setcc
 import FalconProofs.C01.Cmov
+import FalconProofs.C01.Misc
 
 namespace Falcon.C01.Props
 open Falcon Falcon.X86 Falcon.X86Lift Falcon.Const Falcon.Sem Falcon.C01
@@ -379,6 +380,35 @@ theorem lift_correct_jcc {m : String} {c : Nat} (hsp : splitCc m = some ("j", c)
       runBTR r σ = .next σ [if X86.cond st c then target else addr + len] ∧
       X86.step (insJ m addr len target tb) st = .ok st (if X86.cond st c then target else addr + len) [] :=
   lift_jcc hsp hc hp addr len target tb haddr ht σ st hok
+
+/-! ### test, xchg, movzx / movsx / movsxd (registers) -/
+
+/-- **lift_correct_test_rr**: `test r, r` — flags of `dst & src` (CF = OF = 0), nothing written -/
+theorem lift_correct_test_rr {d s : GReg} (hd : Shape d) (hs : Shape s) (hb : s.bits = d.bits) (hdi : d.idx < 16) (hsi : s.idx < 16)
+    (addr len asz : Nat) (haddr : addr + len < 2 ^ 64) (σ : State) (st : St) (hok : Abs σ st) :
+    ∃ ops, opsTestRR .amd64 d s = .ok ops ∧ Agrees (straight addr len ops) σ (insRR "test" addr len asz d s) st :=
+  lift_test_rr hd hs hb hdi hsi addr len asz haddr σ st hok
+
+/-- **lift_correct_test_ri**: `test r, imm` -/
+theorem lift_correct_test_ri {d : GReg} (hd : Shape d) (hdi : d.idx < 16) (v bytes : Nat) (hb : 8 * bytes = d.bits)
+    (addr len asz : Nat) (haddr : addr + len < 2 ^ 64) (σ : State) (st : St) (hok : Abs σ st) :
+    ∃ ops, opsTestRI .amd64 d v bytes = .ok ops ∧ Agrees (straight addr len ops) σ (insRI "test" addr len asz d v bytes) st :=
+  lift_test_ri hd hdi v bytes hb addr len asz haddr σ st hok
+
+/-- **lift_correct_xchg**: `xchg a, b` on registers of equal width, all shapes, aliasing included
+    (`xchg al, ah`; `xchg eax, eax` zero-extends) -/
+theorem lift_correct_xchg {a b : GReg} (hA : Shape a) (hB : Shape b) (hb : b.bits = a.bits) (hai : a.idx < 16) (hbi : b.idx < 16)
+    (addr len asz : Nat) (haddr : addr + len < 2 ^ 64) (σ : State) (st : St) (hok : Abs σ st) :
+    ∃ ops, opsXchg .amd64 addr a b = .ok ops ∧ Agrees (straight addr len ops) σ (insRR "xchg" addr len asz a b) st :=
+  lift_xchg hA hB hb hai hbi addr len asz haddr σ st hok
+
+/-- **lift_correct_extend**: `movzx r, r` (`signed = false`) and `movsx` / `movsxd r, r` (`signed = true`) from any
+    narrower register, including the high-byte registers -/
+theorem lift_correct_extend {m : String} (signed : Bool) (hm : if signed then (m = "movsx" ∨ m = "movsxd") else m = "movzx")
+    {d s : GReg} (hd : Shape d) (hs : Shape s) (hlt : s.bits < d.bits) (hdi : d.idx < 16) (hsi : s.idx < 16)
+    (addr len asz : Nat) (haddr : addr + len < 2 ^ 64) (σ : State) (st : St) (hok : Abs σ st) :
+    ∃ ops, opsExtend .amd64 signed d s = .ok ops ∧ Agrees (straight addr len ops) σ (insRR m addr len asz d s) st :=
+  lift_extend signed hm hd hs hlt hdi hsi addr len asz haddr σ st hok
 
 /-! ### non-vacuity -/
 
